@@ -602,7 +602,7 @@ def _core(ctx, x, hist: str, rate, io: str, sk=None):
     if why is not None:
         ctx.harness(hist != "built" or bool(rate), f"built mapset outside the domain: {why}")
         ctx.exclude(("rated: " if rate else "") + why)
-    if sk is not None:
+    if sk is not None and not rate:
         _skeleton_sanity(ctx, sk, an)
     _labels(ctx, snap, an, hist, rate)
     ctx.nt(
